@@ -91,6 +91,33 @@ class Check:
         self.ex = Executor(self.fns, self.L, models, self.R, loop_bound=loop_bound)
         return self.ex
 
+    # ---- parallel workers
+    def fork(self):
+        """a fresh collector for a forked worker (same configuration, empty results)"""
+        import copy
+        c = copy.copy(self)
+        c.obligations, c.witnesses, c.samples, c.violations, c.known_hits, c.notes = [], [], [], [], [], []
+        c.solver_time, c.replayed, c.paths = 0.0, 0, 0
+        c.cross = {'cvc5': 0, 'z3-4.8': 0, 'disagreements': 0}
+        c._ex0 = dict(self.ex.stats); c._fn0 = set(self.ex.fns_executed); c._m0 = set(self.ex.models_used)
+        return c
+
+    def summary(self):
+        ex = self.ex
+        return {'obligations': self.obligations, 'witnesses': self.witnesses, 'samples': self.samples, 'violations': self.violations,
+                'known_hits': self.known_hits, 'solver_time': self.solver_time, 'replayed': self.replayed, 'paths': self.paths,
+                'cross': self.cross, 'fns': sorted(ex.fns_executed), 'models': sorted(ex.models_used),
+                'stats': {k: ex.stats[k] - self._ex0.get(k, 0) for k in ex.stats}}
+
+    def absorb(self, s):
+        self.obligations += s['obligations']; self.witnesses += s['witnesses']
+        if len(self.samples) < 12: self.samples += s['samples'][:2]
+        self.violations += s['violations']; self.known_hits += s['known_hits']
+        self.solver_time += s['solver_time']; self.replayed += s['replayed']; self.paths += s['paths']
+        for k in self.cross: self.cross[k] += s['cross'][k]
+        self.ex.fns_executed |= set(s['fns']); self.ex.models_used |= set(s['models'])
+        for k, v in s['stats'].items(): self.ex.stats[k] += v
+
     # ---- obligations
     def _solve(self, s, name, timeout_ms):
         s.set('timeout', timeout_ms)
